@@ -130,8 +130,11 @@ func Append(ctx context.Context, basen ipld.Node, db *h.DagBuilderHelper) (out i
 		return nil, err
 	}
 
-	// after appendFillLastChild, our depth is now increased by one
-	if !db.Done() {
+	// appendFillLastChild completed the partially filled depth layer, if
+	// there was one (repeatNumber != 0): only then do we move on to the next
+	// depth. With repeatNumber == 0 no sub-graph of this depth exists yet and
+	// the first one must be added at this depth, as fillTrickleRec would.
+	if repeatNumber != 0 && !db.Done() {
 		depth++
 	}
 
@@ -227,8 +230,9 @@ func appendRec(ctx context.Context, fsn *h.FSNodeOverDag, db *h.DagBuilderHelper
 		return nil, 0, err
 	}
 
-	// after appendFillLastChild, our depth is now increased by one
-	if !db.Done() {
+	// as in Append: the depth only increases if a partially filled layer
+	// was completed by appendFillLastChild
+	if repeatNumber != 0 && !db.Done() {
 		depth++
 	}
 
